@@ -8,12 +8,27 @@
    status or reason, an abort request always leaves status 'abort' and its reason, (5) what the
    blocking call reports, (6) FailedStatus originates only in a status that finished unsuccessfully.
    (7) the interruption mark is set by the requests and sticky until the next call/resume.
-   PARTIAL: the end-to-end statement C02_full ("the first cause decides") is not proved as one
-   theorem; run_wrapper's own close_run (Gen/Wrappers.v, C22/C23) and the exception chaining
-   (`FailedStatus` -> device exception, a Python `__cause__`) are outside this model: the chaining is
-   checked on the implementation side only. *)
+   (8) END TO END (Proofs/RE_ExitE2E.v), over a whole schedule from [init], for every plan, device and
+   schedule whose interpreter fuel does not run out (the model reports that as OBad 1):
+   the *decision* of a call is the one CExit x the `_run` interpreter reaches (how the outermost plan
+   frame ended; unique: C02_decision_unique).  C02_end_to_end: when `_run` survives the cause (plan
+   returned / RequestStop -> success; RequestAbort, PlanHalt, FailedPause, CancelledError -> abort),
+   every RunStop emitted by the finally block carries that status, overridden only by abort requests
+   that arrive during the final sleep (status abort + their reason, accepted or not: the model's
+   `_abort_coro`; a halt request writes the status only on a paused engine, which cannot be the case
+   there: C02_override_rule), the engine ends idle with no run left, and RE()/resume() report
+   RunEngineInterrupted iff the interruption mark is set, else the run uids.  C02_end_to_end_fail:
+   an unhandled error closes the runs at once with 'fail' and the exception text and is re-raised by
+   RE()/resume().  C02_final_sleep_has_decision + C02_task_step_classified: there is no other way
+   into the finally block.  C02_reason_provenance: the reason is "" or the reason of an abort request.
+   C02_full_stmt_refuted: the earlier reading "a non-success RunStop means interrupted or raised" is
+   false (a plan that raises RequestAbort itself: abort, normal return); the exception class decides.
+   Outside this model: run_wrapper's own close_run (Gen/Wrappers.v, C22/C23) and the exception
+   chaining (`FailedStatus` -> device exception, a Python `__cause__`), checked on the implementation
+   side only. *)
 From Coq Require Import List ZArith Bool.
-From BV Require Import Engine.RE Engine.REInst Engine.DocMon Proofs.RE_Docs Proofs.RE_DocsCor Proofs.RE_Exit.
+From BV Require Import Engine.RE Engine.REInst Engine.DocMon Proofs.RE_Docs Proofs.RE_DocsCor Proofs.RE_Exit Proofs.RE_ExitE2E.
+From BV Require Proofs.RE_Inv Proofs.RE_ExitCause.
 Import ListNotations.
 
 (* (1) success for normal completion and RequestStop; abort for FailedPause, RequestAbort, a
@@ -164,18 +179,162 @@ Theorem C02_stop_halt_request_marks :
 Proof. exact stop_halt_request_marks. Qed.
 Print Assumptions C02_stop_halt_request_marks.
 
-(* the end-to-end reading that is NOT proved as a single theorem: "classify the call by the first of
-   {plan returned, stop, abort, halt, failed pause, unhandled exception}; then every engine-made RunStop
-   carries the status of that class and the call reports Return / Interrupted / the exception".
-   (1)-(7) are its links; what is missing is their composition over a whole schedule, which needs the
-   lifecycle invariant of Proofs/RE_Inv.v (e.g. that RequestStop is only ever thrown in state 'stopping',
-   entered by a stop request, which by (7) leaves the mark). *)
-Definition C02_full : Prop :=
+(* (8) end to end *)
+Theorem C02_end_to_end :
+  forall (P : Type) (presume : P -> input -> outcome P) (plan_of : nat -> P)
+         (D : Type) (dev : D -> nat -> devmeth -> D * devres) (d : D) (paus stag : list nat) (rec : bool)
+         (evs0 evsB evsC : list event) (a : mainact) (s1 : st P D) (x : xkind) (os1 : list obs),
+    nobad P presume plan_of D dev (init P D d paus stag rec) (evs0 ++ EvTask :: evsB ++ EvTask :: evsC) ->
+    let s0 := fst (run P presume plan_of D dev (init P D d paus stag rec) evs0) in
+    RE_Inv.visited P presume plan_of D dev s0 (s1, CExit x, os1) -> sleeps x = true ->
+    no_task evsB = true -> no_main evsC = true -> is_call a = true ->
+    let sd := fst (step P presume plan_of D dev s0 EvTask) in
+    let sb := fst (run P presume plan_of D dev sd evsB) in
+    let sf := fst (step P presume plan_of D dev sb EvTask) in
+    let sC := fst (run P presume plan_of D dev sf evsC) in
+    let xr_fin := fold_left override evsB (exit_of x, reason P D s1) in
+    step P presume plan_of D dev s0 EvTask =
+      (set_pc P D (set_exit P D s1 (exit_of x) (reason P D s1)) (PcFinalSleep (result_of x)), os1 ++ [OTask WSleep0]) /\
+    docs_of (snd (step P presume plan_of D dev sb EvTask)) = stops_of (bundlers P D sb) (fst xr_fin) (snd xr_fin) /\
+    state P D sf = Idle /\ bundlers P D sf = [] /\
+    snd (step P presume plan_of D dev sC (EvMainDone a)) =
+      [OOut (match main_err P D sC with
+             | Some e => OutRaise e
+             | None => if interrupted P D sC then OutInterrupted else OutReturn (run_uids P D sC)
+             end) Idle (deferred P D sC) (resumable P D sC)] /\
+    (interrupted P D sd = true \/ existsb marks evsB = true -> interrupted P D sC = true).
+Proof. exact end_to_end_sleep. Qed.
+Print Assumptions C02_end_to_end.
+
+Theorem C02_end_to_end_fail :
+  forall (P : Type) (presume : P -> input -> outcome P) (plan_of : nat -> P)
+         (D : Type) (dev : D -> nat -> devmeth -> D * devres) (d : D) (paus stag : list nat) (rec : bool)
+         (evs0 evsC : list event) (a : mainact) (s1 : st P D) (e : exn) (os1 : list obs),
+    nobad P presume plan_of D dev (init P D d paus stag rec) (evs0 ++ EvTask :: evsC) ->
+    let s0 := fst (run P presume plan_of D dev (init P D d paus stag rec) evs0) in
+    RE_Inv.visited P presume plan_of D dev s0 (s1, CExit (XExn e), os1) -> sleeps (XExn e) = false ->
+    no_main evsC = true -> is_call a = true ->
+    let sf := fst (step P presume plan_of D dev s0 EvTask) in
+    let sC := fst (run P presume plan_of D dev sf evsC) in
+    docs_of (snd (step P presume plan_of D dev s0 EvTask)) =
+      docs_of os1 ++ stops_of (bundlers P D s1) XFail (match e with EGeneratorExit => reason P D s1 | _ => RsExnText end) /\
+    state P D sf = Idle /\ bundlers P D sf = [] /\ pc P D sf = PcDone (TRaise (raised_of e)) /\
+    snd (step P presume plan_of D dev sC (EvMainDone a)) =
+      [OOut (match main_err P D sC with Some e' => OutRaise e' | None => OutRaise (raised_of e) end)
+            Idle (deferred P D sC) (resumable P D sC)].
+Proof. exact end_to_end_fail. Qed.
+Print Assumptions C02_end_to_end_fail.
+
+(* there is no other way: every final sleep was entered by a decision, every task step is classified *)
+Theorem C02_final_sleep_has_decision :
+  forall (P : Type) (presume : P -> input -> outcome P) (plan_of : nat -> P)
+         (D : Type) (dev : D -> nat -> devmeth -> D * devres) (d : D) (paus stag : list nat) (rec : bool)
+         (evs : list event) (r : tres),
+    nobad P presume plan_of D dev (init P D d paus stag rec) evs ->
+    pc P D (fst (run P presume plan_of D dev (init P D d paus stag rec) evs)) = PcFinalSleep r ->
+    exists evs0 evsB s1 x os1,
+      evs = evs0 ++ EvTask :: evsB /\ no_task evsB = true /\
+      RE_Inv.visited P presume plan_of D dev (fst (run P presume plan_of D dev (init P D d paus stag rec) evs0)) (s1, CExit x, os1) /\
+      sleeps x = true /\ r = result_of x.
+Proof. exact final_sleep_has_decision. Qed.
+Print Assumptions C02_final_sleep_has_decision.
+
+Theorem C02_task_step_classified :
+  forall (P : Type) (presume : P -> input -> outcome P) (plan_of : nat -> P)
+         (D : Type) (dev : D -> nat -> devmeth -> D * devres) (s s' : st P D) (o : list obs),
+    task_step P presume plan_of D dev s = (s', o) -> ~ In (OBad 1) o -> task_end P presume plan_of D dev s s' o.
+Proof. exact task_step_classified. Qed.
+Print Assumptions C02_task_step_classified.
+
+Theorem C02_decision_unique :
+  forall (P : Type) (presume : P -> input -> outcome P) (plan_of : nat -> P)
+         (D : Type) (dev : D -> nat -> devmeth -> D * devres) (s s1 : st P D) x os1 (s2 : st P D) y os2,
+    RE_Inv.visited P presume plan_of D dev s (s1, CExit x, os1) -> RE_Inv.visited P presume plan_of D dev s (s2, CExit y, os2) ->
+    (s1, x, os1) = (s2, y, os2).
+Proof. exact decision_unique. Qed.
+Print Assumptions C02_decision_unique.
+
+(* the override rule, exactly: what any event other than a task step or an accepted new call does to
+   pc, status and reason *)
+Theorem C02_override_rule :
+  forall (P : Type) (presume : P -> input -> outcome P) (plan_of : nat -> P)
+         (D : Type) (dev : D -> nat -> devmeth -> D * devres) (s : st P D) e s' o,
+    is_task e = false -> accepted_call P D s e = false -> step P presume plan_of D dev s e = (s', o) ->
+    pc P D s' = pc P D s /\ exit_reason_set P D s' = exit_reason_set P D s /\
+    (exit_status P D s', reason P D s') = override_at P D s e.
+Proof. exact step_nontask. Qed.
+Print Assumptions C02_override_rule.
+
+Theorem C02_reason_provenance :
+  forall (P : Type) (presume : P -> input -> outcome P) (plan_of : nat -> P)
+         (D : Type) (dev : D -> nat -> devmeth -> D * devres) (s : st P D) e s' o,
+    step P presume plan_of D dev s e = (s', o) -> ~ In (OBad 1) o ->
+    reason P D s' = reason P D s \/ reason P D s' = RsEmpty \/ exists rs, e = EvReqAbort rs /\ reason P D s' = rs.
+Proof. exact reason_provenance. Qed.
+Print Assumptions C02_reason_provenance.
+
+(* (9) from the accepted request to the decision (Proofs/RE_ExitCause.v): a stop / abort / halt request
+   accepted while `_run` is in its loop leaves the task cancelled in state stopping / aborting / halting
+   with the interruption mark set; if every frame on the plan stack lets the substituted exception
+   propagate and no failed status is pending, the next task step decides exactly that exception - so,
+   by (8): stop -> success, abort / halt -> abort, and RunEngineInterrupted for the caller *)
+Theorem C02_request_lands :
+  forall (P : Type) (presume : P -> input -> outcome P) (plan_of : nat -> P)
+         (D : Type) (dev : D -> nat -> devmeth -> D * devres) (s : st P D) e x s' o,
+    RE_ExitCause.req_state e = Some x -> state P D s = Running -> RE_ExitCause.in_loop (pc P D s) = true ->
+    step P presume plan_of D dev s e = (s', o) ->
+    state P D s' = x /\ must_cancel P D s' = true /\ pc P D s' = pc P D s /\ plans P D s' = plans P D s /\
+    resps P D s' = resps P D s /\ stashed P D s' = stashed P D s /\ exc_slot P D s' = exc_slot P D s /\
+    interrupted P D s' = true.
+Proof. exact RE_ExitCause.request_lands. Qed.
+Print Assumptions C02_request_lands.
+
+Theorem C02_request_decides :
+  forall (P : Type) (presume : P -> input -> outcome P) (plan_of : nat -> P)
+         (D : Type) (dev : D -> nat -> devmeth -> D * devres) (s : st P D) e,
+    RE_Inv.Inv P D True s -> RE_ExitCause.in_loop (pc P D s) = true -> must_cancel P D s = true ->
+    RE_ExitCause.cancel_exn (state P D s) = Some e -> stashed P D s = None -> exc_slot P D s = None ->
+    Forall (RE_ExitCause.propagates P presume e) (plans P D s) ->
+    exists s1 os1, RE_Inv.visited P presume plan_of D dev s (s1, CExit (XExn e), os1) /\ state P D s1 = state P D s.
+Proof. exact RE_ExitCause.request_decides. Qed.
+Print Assumptions C02_request_decides.
+
+(* The earlier end-to-end reading (kept for the record): "a RunStop that is not 'success' means the
+   engine was interrupted or the task raised".  It is FALSE: the exception class decides, whoever
+   raised it.  A plan that raises RequestAbort itself gets 'abort' and a normal return. *)
+Definition C02_full_stmt : Prop :=
   forall (P : Type) (presume : P -> input -> outcome P) (plan_of : nat -> P)
          (D : Type) (dev : D -> nat -> devmeth -> D * devres) (d : D) (paus stag : list nat) (rec : bool) (evs : list event),
     forall u xs rs num, In (ODoc (DStop u xs rs num)) (snd (run P presume plan_of D dev (init P D d paus stag rec) evs)) ->
     xs = XSuccess \/ interrupted P D (fst (run P presume plan_of D dev (init P D d paus stag rec) evs)) = true \/
     exists e, In (OTask (WRaise e)) (snd (run P presume plan_of D dev (init P D d paus stag rec) evs)).
+
+Definition own_abort_tapes := [(0, [TY {| mid := (Some 0); mcmd := COpenRun; mobj := None; mrun := 0 |}; TE ERequestAbort])].
+Definition own_abort_evs := [EvMain (ACall 0); EvPermit; EvTask; EvTask; EvTask; EvTask; EvMainDone (ACall 0)].
+Lemma own_abort_obs :
+  snd (run TP (t_resume own_abort_tapes) t_plan_of nat (t_dev []) (init TP nat 0 [] [] false) own_abort_evs) =
+    [OState Idle Running; OTask WSleep0; OPlanIn 0 (Send VNone);
+     OMsg {| mid := Some 0; mcmd := COpenRun; mobj := None; mrun := 0 |};
+     ODoc (DStart 0); OResp (RVal (VUid 0)); OTask WSleep0;
+     OPlanIn 0 (Send (VUid 0)); OTask WSleep0;
+     ODoc (DStop 0 XAbort RsEmpty []); OState Running Idle;
+     OTask WReturn; OOut (OutReturn [0]) Idle false true].
+Proof. vm_compute. reflexivity. Qed.
+Lemma own_abort_intr :
+  interrupted TP nat (fst (run TP (t_resume own_abort_tapes) t_plan_of nat (t_dev []) (init TP nat 0 [] [] false) own_abort_evs)) = false.
+Proof. vm_compute. reflexivity. Qed.
+Example C02_full_stmt_refuted : ~ C02_full_stmt.
+Proof.
+  intros H.
+  pose proof (H TP (t_resume own_abort_tapes) t_plan_of nat (t_dev [])) as H0.
+  pose proof (H0 0 [] [] false own_abort_evs 0 XAbort RsEmpty []) as H1. clear H H0.
+  rewrite own_abort_obs, own_abort_intr in H1.
+  destruct H1 as [E|[E|[e E]]].
+  - cbn. auto 20.
+  - discriminate E.
+  - discriminate E.
+  - cbn in E. repeat (destruct E as [E|E]; [discriminate E|]). exact E.
+Qed.
 
 (* non-vacuity, recorded from the implementation: a plan raising with its run open (fail, exception
    text, re-raised), an abort (abort, given reason, interrupted), a stop (success, interrupted) *)
@@ -215,3 +374,72 @@ Example C02_nonvacuous :
   In (ODoc (DStop 0 XSuccess RsEmpty [])) (of_ exs_tapes exs_ledger exs_paus exs_stag exs_rec exs_evs) /\
   In (OOut OutInterrupted Idle false true) (of_ exs_tapes exs_ledger exs_paus exs_stag exs_rec exs_evs).
 Proof. vm_compute. repeat split; auto 40. Qed.
+
+(* non-vacuity of (8): on the recorded runs above the decision hypothesis holds with the expected
+   cause (fail: the plan's own error; abort: RequestAbort thrown by the engine; stop: RequestStop), and
+   on a model schedule a plan that has returned (decision: success) gets 'abort' + the given reason
+   because the abort request lands during the final sleep (the override rule) *)
+Definition ov_tapes := [(0, [TY {| mid := (Some 0); mcmd := COpenRun; mobj := None; mrun := 0 |}; TR VNone])].
+Definition ov_evs0 := [EvMain (ACall 0); EvPermit; EvTask; EvTask].
+Definition ov_evsB := [EvReqAbort (RsGiven 7)].
+Definition pre_state tapes ledger paus stag rec evs :=
+  fst (run TP (t_resume tapes) t_plan_of nat (t_dev ledger) (init TP nat 0 paus stag rec) evs).
+Definition decision_of tapes ledger paus stag rec evs : option (xkind * list obs) :=
+  match decision TP (t_resume tapes) t_plan_of nat (t_dev ledger) (pre_state tapes ledger paus stag rec evs) with
+  | Some (_, x, os) => Some (x, os)
+  | None => None
+  end.
+Lemma decision_of_visited tapes ledger paus stag rec evs x os :
+  decision_of tapes ledger paus stag rec evs = Some (x, os) ->
+  exists s1, RE_Inv.visited TP (t_resume tapes) t_plan_of nat (t_dev ledger) (pre_state tapes ledger paus stag rec evs) (s1, CExit x, os).
+Proof.
+  unfold decision_of. destruct (decision _ _ _ _ _ _) as [[[s1 x'] os']|] eqn:E; [|discriminate].
+  intros H; inversion H; subst. exists s1. apply decision_visited. exact E.
+Qed.
+
+Example C02_end_to_end_nonvacuous :
+  (exists s1, RE_Inv.visited TP (t_resume exf_tapes) t_plan_of nat (t_dev exf_ledger)
+                (pre_state exf_tapes exf_ledger exf_paus exf_stag exf_rec (firstn 11 exf_evs)) (s1, CExit (XExn EUser1), [OPlanIn 0 (Send VNone)])) /\
+  sleeps (XExn EUser1) = false /\ nth_error exf_evs 11 = Some EvTask /\
+  (exists os1 s1, RE_Inv.visited TP (t_resume exa_tapes) t_plan_of nat (t_dev exa_ledger)
+                (pre_state exa_tapes exa_ledger exa_paus exa_stag exa_rec (firstn 9 exa_evs)) (s1, CExit (XExn ERequestAbort), os1)) /\
+  sleeps (XExn ERequestAbort) = true /\ skipn 9 exa_evs = [EvTask; EvTask; EvMainDone (ACall 0)] /\
+  (exists os1 s1, RE_Inv.visited TP (t_resume exs_tapes) t_plan_of nat (t_dev exs_ledger)
+                (pre_state exs_tapes exs_ledger exs_paus exs_stag exs_rec (firstn 9 exs_evs)) (s1, CExit (XExn ERequestStop), os1)) /\
+  exit_of (XExn ERequestStop) = XSuccess /\
+  (exists os1 s1, RE_Inv.visited TP (t_resume ov_tapes) t_plan_of nat (t_dev [])
+                (pre_state ov_tapes [] [] [] false ov_evs0) (s1, CExit (XRet VNone), os1)) /\
+  fold_left override ov_evsB (exit_of (XRet VNone), RsEmpty) = (XAbort, RsGiven 7) /\
+  no_task ov_evsB = true /\ existsb marks ov_evsB = true /\
+  model_obs ov_tapes [] [] [] false (ov_evs0 ++ EvTask :: ov_evsB ++ [EvTask; EvMainDone (ACall 0)]) =
+    [OState Idle Running; OTask WSleep0; OPlanIn 0 (Send VNone);
+     OMsg {| mid := Some 0; mcmd := COpenRun; mobj := None; mrun := 0 |}; ODoc (DStart 0); OResp (RVal (VUid 0)); OTask WSleep0;
+     OPlanIn 0 (Send (VUid 0)); OTask WSleep0; OState Running Aborting; OReq true;
+     ODoc (DStop 0 XAbort (RsGiven 7) []); OState Aborting Idle; OTask (WRaise ECancelled); OOut OutInterrupted Idle false true].
+Proof.
+  split; [apply decision_of_visited; vm_compute; reflexivity|].
+  split; [reflexivity|]. split; [reflexivity|].
+  split; [eexists; apply decision_of_visited; vm_compute; reflexivity|].
+  split; [reflexivity|]. split; [reflexivity|].
+  split; [eexists; apply decision_of_visited; vm_compute; reflexivity|].
+  split; [reflexivity|].
+  split; [eexists; apply decision_of_visited; vm_compute; reflexivity|].
+  repeat split; vm_compute; reflexivity.
+Qed.
+
+(* non-vacuity of (9) on the recorded abort: after the abort request the engine is aborting, the task
+   cancelled inside `read`, nothing stashed or pending, and the one frame on the stack (the recorded plan)
+   lets RequestAbort propagate *)
+Example C02_request_decides_nonvacuous :
+  let s := pre_state exa_tapes exa_ledger exa_paus exa_stag exa_rec (firstn 9 exa_evs) in
+  nth_error exa_evs 8 = Some (EvReqAbort (RsGiven 1)) /\
+  RE_ExitCause.in_loop (pc TP nat s) = true /\ must_cancel TP nat s = true /\
+  RE_ExitCause.cancel_exn (state TP nat s) = Some ERequestAbort /\ stashed TP nat s = None /\ exc_slot TP nat s = None /\
+  Forall (RE_ExitCause.propagates TP (t_resume exa_tapes) ERequestAbort) (plans TP nat s) /\ plans TP nat s <> [].
+Proof.
+  cbv zeta. split; [reflexivity|]. split; [vm_compute; reflexivity|]. split; [vm_compute; reflexivity|].
+  split; [vm_compute; reflexivity|]. split; [vm_compute; reflexivity|]. split; [vm_compute; reflexivity|].
+  assert (E : plans TP nat (pre_state exa_tapes exa_ledger exa_paus exa_stag exa_rec (firstn 9 exa_evs)) = [FUser 0 (0, 4) true])
+    by (vm_compute; reflexivity).
+  rewrite E. split; [|discriminate]. constructor; [vm_compute; reflexivity | constructor].
+Qed.
